@@ -81,10 +81,18 @@ def run(cx):
             ('NONE/ANY name in use YXDOMAIN', r'YXDomain', {'class': rf'^is\({RR}\.dns_class,NONE\)$', 'type': rf'^is\(Record::record_type\({RR}\),ANY\)$', 'empty': EMPTY, 'used': '^!' + LK_ANY}),
             ('NONE/type present YXRRSET', r'YXRRSet', {'class': rf'^is\({RR}\.dns_class,NONE\)$', 'empty': EMPTY, 'present': '^!' + LK_TY}),
             ('NONE non-empty FORMERR', r'FormErr', {'class': rf'^is\({RR}\.dns_class,NONE\)$', 'nonempty': NONEMPTY}),
-            ('zone class value mismatch NXRRSET', r'NXRRSet', {'class': '^' + ZCLASS + '$', 'no-equal-record': r'^!Iterator::any\(AuthLookup::iter\('}),
+            ('zone class value mismatch NXRRSET', r'NXRRSet', {'class': '^' + ZCLASS + '$', 'no-equal-record': r'^!Iterator::any\(AuthLookup::iter\(.*,closure:SqliteZoneHandler::verify_prerequisites::\{closure#0\}::\{closure@any#0\}\)$|^Iterator::all\(AuthLookup::iter\(.*,closure:SqliteZoneHandler::verify_prerequisites::\{closure#0\}::\{closure@all#0\}\)$'}),
             ('other class FORMERR', r'FormErr', {'class': '^!' + ZCLASS + '$', 'not-any-none': rf'^in\({RR}\.dns_class,(?!.*\bANY\b)(?!.*\bNONE\b).*\)$'}),
         ]
         table(cx, 'C12.T1', v, rows, 11)
+        # the value-dependent row compares whole records: `any(|rr| rr == require)` negated, or its dual `all(|rr| rr != require)`
+        REQ = r"<Iter<'a;T> as Iterator>::next\(\^\^arg2\)@Some\.0"
+        for role, want in (('any', rf'^eq:Record\({REQ},arg2\)$|^eq:Record\(arg2,{REQ}\)$'), ('all', rf'^!eq:Record\({REQ},arg2\)$|^!eq:Record\(arg2,{REQ}\)$')):
+            c_ = cx.prog.fn(v.path + '::{closure@' + role + '#0}')
+            if c_ is not None:
+                t_ = cx.true_returns(c_)
+                cx.check('C12.T1', len(t_) == 1 and bool(re.search(want, t_[0].term)), c_.path, 'ret',
+                         'value-dependent-prerequisite-compares-whole-records', '; '.join(x.term[:160] for x in t_))
     p = cx.fn('C12.T1', S + 'pre_scan::{closure#0}')
     if p:
         META = within(rf'Record::record_type\({RR}\)', ['ANY', 'AXFR', 'IXFR'])
